@@ -489,8 +489,11 @@ class ConsumerGroup(Entity):
             if consumer_name not in self._committed_offsets:
                 self._committed_offsets[consumer_name] = {}
 
+            committed = self._committed_offsets[consumer_name]
             for pid, offset in offsets.items():
-                self._committed_offsets[consumer_name][pid] = offset
+                # A stale (lower) commit must not move the committed offset backwards
+                if pid not in committed or offset > committed[pid]:
+                    committed[pid] = offset
 
             self._commits += 1
             return None
